@@ -22,7 +22,7 @@ TEXT = {'text': 'Kernel-checked theorems over a faithful model of SighashCache (
          'documented panics), for abstract hash functions: C13_coherent — for every transaction, every list of spent outputs and every finite operation '
          'sequence whose Prevouts::All carry that list, the answers of one live cache equal, operation by operation, the answers of a cache created for '
          'that operation alone on the transaction with the witness updates made so far (proved through the invariant "every filled cache equals the value '
-         'recomputed from the current transaction and spent outputs", C13_invariant/C13_step, and C13_caches_ignore_script_witness); C13_need_all — '
+         'recomputed from the current transaction and spent outputs", C13_invariant/C13_step, and C13_caches_ignore_script_witness); C13_witness_independent — two caches over transactions differing only in script_sig / script witness / pegin witness give equal answers (digests, errors, panics) for every operation sequence; C13_need_all — '
          'Prevouts::One with a type without ANYONECANPAY is Err(PrevoutKind) in every state; C13_acp_one — for every ANYONECANPAY type (ALL|ACP, NONE|ACP, SINGLE|ACP), One(i, spent[i]) '
          'yields the same pre-image, digest and cache state as All (finding F11 was repaired by 539d5ee; the model follows the new cache layout). Each run drives one real SighashCache with random operation sequences, compares every '
          'answer with the extracted model and, on the implementation itself, with a fresh cache over the current AND over the original (pre-witness_mut) '
